@@ -22,6 +22,7 @@ INFEASIBLE = {
     ("decimal.InvalidOperation", "DecimalConvertor.to_python :: Decimal(value)"): "the operand has been matched by the convertor's own regex; C08/R8.5 decides on every run that L(regex) is inside Decimal's domain",
     ("NotADirectoryError", "FileResponse.__init__ :: os.stat(filepath)"): "Files/Pages always pass the stat_result they already obtained, so `stat_result or os.stat(filepath)` never evaluates os.stat on a client path",
     ("ValueError", "FileResponse.__init__ :: os.stat(filepath)"): "same: stat_result is always supplied on the client-reachable path",
+    ("OSError", "FileResponse.__init__ :: os.stat(filepath)"): "same: stat_result is always supplied on the client-reachable path",
 }
 
 
